@@ -10,3 +10,16 @@ pub open spec fn pair_sum(s: Seq<(Sig, Pk)>) -> int
 pub uninterp spec fn hp(m: Seq<u8>, dst: Seq<u8>) -> Sig;
 /// hash-to-scalar (HKDF based, see G?IMPL units)
 pub uninterp spec fn hs(m: Seq<u8>, salt: Seq<u8>) -> Scalar;
+
+/// PROVED: a single pairing term
+pub broadcast proof fn lemma_pair_sum_len1(s: Seq<(Sig, Pk)>)
+    requires s.len() == 1,
+    ensures #[trigger] pair_sum(s) == fmul(s[0].0.dl(), s[0].1.dl())
+{
+    reveal_with_fuel(pair_sum, 2);
+    lemma_range_mul(s[0].0.dl(), s[0].1.dl());
+    lemma_add_comm(0, fmul(s[0].0.dl(), s[0].1.dl()));
+    lemma_add_zero(fmul(s[0].0.dl(), s[0].1.dl()));
+    assert(s.drop_last().len() == 0);
+    assert(s.last() == s[0]);
+}
